@@ -290,7 +290,21 @@ func asMap(s cset) map[string]int64 {
 	return m
 }
 
+func hasNonPositive(s cset) bool {
+	for _, c := range s {
+		if c.Amount <= 0 {
+			return true
+		}
+	}
+	return false
+}
+
 func cmpPair(idx int64, sa, sb cset, hist map[string]int64) {
+	// On sets carrying zero/negative entries only IsAllGTE / IsAllLTE are judged against the per-denomination
+	// model (absent denom = 0): that IS what the code implements for them. The other helpers treat such entries
+	// by conventions of their own (zero = absent, ...), which the statement does not settle; for those only
+	// "no panic, operands untouched" is required there.
+	extended := hasNonPositive(sa) || hasNonPositive(sb)
 	ma, mb := asMap(sa), asMap(sb)
 	allB := func(p func(a, b int64, inA bool) bool) bool {
 		for d, b := range mb {
@@ -346,7 +360,7 @@ func cmpPair(idx int64, sa, sb cset, hist map[string]int64) {
 			fail("helper-panic:"+x.name, idx, input, fmt.Sprint(rec))
 			continue
 		}
-		if got != x.want {
+		if got != x.want && (!extended || x.name == "IsAllGTE" || x.name == "IsAllLTE") {
 			fail("helper-wrong:"+x.name, idx, input, fmt.Sprintf("returned %v; per-denomination comparison says %v", got, x.want))
 		}
 		if !eqCoins(backA, snapA) || !eqCoins(backB, snapB) {
@@ -504,6 +518,10 @@ func main() {
 		vAmounts = []int64{1, 2, 3, 4, 1 << 32, math.MaxInt64 - 2, math.MaxInt64 - 1, math.MaxInt64}
 	}
 	vsets := mkSets(denoms, vAmounts)
+	// second family: sorted sets that also carry zero and negative entries (legal operands of the Unsafe
+	// arithmetic, so the helpers meet them): per-denomination comparison with an absent denom read as 0
+	validSets := vsets
+	vsets = append(append([]cset{}, vsets...), mkSets(denoms, []int64{-1, 0, 1, 2})...)
 	nv := len(vsets)
 	hist := map[string]int64{}
 	r.ParFor(nv, func(i int) {
@@ -535,7 +553,7 @@ func main() {
 		}
 	}
 	r.EvalN(singleCoins())
-	r.EvalN(parseRoundTrip(vsets, "p1:"))
+	r.EvalN(parseRoundTrip(validSets, "p1:"))
 	r.EvalN(parseRoundTrip(mkSets([]string{"/gno.land/r/demo/foo:bar", "a-b", "ugnot", "x0_.:/-"}, []int64{1, 10, math.MaxInt64}), "p2:"))
 
 	var names []string
